@@ -116,6 +116,10 @@ pub struct Reply {
     pub auth: Auth,
     pub fp: FpMode,
     pub dup: bool,
+    /// duplicates with DIFFERENT values appended after the genuine attributes (the client must use the first):
+    /// bit 0 second REALM, bit 1 second NONCE, bit 2 second ERROR-CODE, bit 3 second PASSWORD-ALGORITHMS
+    #[serde(default)]
+    pub twist: u8,
 }
 
 #[derive(Clone, Debug, PartialEq, Eq, Hash, Serialize, Deserialize)]
